@@ -1482,6 +1482,29 @@ func (x *Exec) anchorName(ins ssa.Instruction, full string) string {
 func (x *Exec) genericCall(st *State, ins ssa.Instruction, full string, fn *ssa.Function, args []Value, cont func(*State, Value)) bool {
 	switch full {
 	case "slices.IndexFunc", "slices.ContainsFunc":
+	case "slices.Contains", "slices.Index":
+		// first index holding a value equal to the argument (Go's == on the element type), or -1
+		s, e := args[0], args[1]
+		sl, ok := types.Unalias(s.Typ).Underlying().(*types.Slice)
+		if !ok || x.exploded(sl.Elem()) {
+			return false
+		}
+		es := x.TM.Key(sl.Elem())
+		at := func(idx string) Value {
+			return x.mk(Select(Select(x.elemArr(st, es), app("sbase", s.Term)), idx), sl.Elem())
+		}
+		n := app("slen", s.Term)
+		ne := func(bound string) string {
+			return fmt.Sprintf("(forall ((k!q Int)) (! (=> (and (<= 0 k!q) (< k!q %s)) (not %s)) :pattern (%s)))", bound, x.equal(st, at("k!q"), e, nil), at("k!q").Term)
+		}
+		idx := x.D.Fresh("idx", SInt)
+		st.Assume(Or(And(Eq(idx, "(- 1)"), ne(n)), And(fmt.Sprintf("(and (<= 0 %s) (< %s %s))", idx, idx, n), x.equal(st, at(idx), e, nil), ne(idx))))
+		if full == "slices.Contains" {
+			cont(st, boolV(app(">=", idx, "0")))
+		} else {
+			cont(st, intV(idx))
+		}
+		return true
 	default:
 		return false
 	}
